@@ -15,8 +15,9 @@ open Restic.Model.Lock
 /-- refreshability timeout + maximal stall + clock skew (both directions) stay within the stale timeout -/
 def timingOK (P : Params) : Prop := P.R + P.M + 2 * P.eps ≤ P.S
 
-/-- the lock file the process relies on: the replacement while refreshing, else the one `lockID` names -/
-def lockFile (p : Proc) : Option Nat := if p.pc = .refreshing then p.f2 else p.f1
+/-- the lock file the process relies on: the replacement while refreshing (or between writing and
+    adopting the replacement of a forced refresh), else the one `lockID` names -/
+def lockFile (p : Proc) : Option Nat := if p.pc = .refreshing ∨ p.pc = .stale2 then p.f2 else p.f1
 
 /-- per-process invariant: an urgent process (created / holding / refreshing) has its newest lock
     file in the repository, written at `p.t`, and is within its deadline -/
@@ -27,7 +28,22 @@ def Mutex (s : Sys) : Prop :=
   ∀ (i j : Nat) (p q : Proc), i ≠ j → s.procs[i]? = some p → s.procs[j]? = some q →
     holds p = true → holds q = true → conflict p.excl q.excl = false
 
-def Inv (P : Params) (s : Sys) : Prop := (∀ p ∈ s.procs, Good P s.now p) ∧ Mutex s
+/-- the process has a claim on the lock: it believes it holds it, or it is in a forced refresh of a
+    lock it held and its old lock file is still in the repository -/
+def claims (p : Proc) : Bool :=
+  holds p || ((p.pc == .stale0 || p.pc == .stale1 || p.pc == .stale2) && p.f1.isSome)
+
+/-- the inductive form of mutual exclusion: claims of different processes never conflict -/
+def Claims (s : Sys) : Prop :=
+  ∀ (i j : Nat) (p q : Proc), i ≠ j → s.procs[i]? = some p → s.procs[j]? = some q →
+    claims p = true → claims q = true → conflict p.excl q.excl = false
+
+def Inv (P : Params) (s : Sys) : Prop := (∀ p ∈ s.procs, Good P s.now p) ∧ Claims s
+
+theorem claims_of_holds (p : Proc) (h : holds p = true) : claims p = true := by simp [claims, h]
+
+theorem Mutex_of_Claims (s : Sys) (h : Claims s) : Mutex s :=
+  fun i j p q hij hp hq hph hqh => h i j p q hij hp hq (claims_of_holds p hph) (claims_of_holds q hqh)
 
 theorem conflict_comm (a b : Bool) : conflict a b = conflict b a := by
   simp [conflict, Bool.or_comm]
@@ -63,8 +79,8 @@ theorem holds_urgent (p : Proc) (h : holds p = true) : urgent p = true := by
   simp only [holds, Bool.or_eq_true, beq_iff_eq] at h
   simp only [urgent, Bool.or_eq_true, beq_iff_eq]
   rcases h with h | h
+  · exact Or.inl (Or.inl (Or.inr h))
   · exact Or.inl (Or.inr h)
-  · exact Or.inr h
 
 /-- L1: the local transition preserves `Good` (this is where the timing hypothesis is used: a file
     that can be judged stale is never the lock file of an urgent process) -/
@@ -97,6 +113,19 @@ theorem local_good (P : Params) (ht : timingOK P) (now : Nat) (c : Bool) (p p' :
   | giveUp => simp only [localStep] at st; split at st <;> cases st; intro hu; simp [urgent] at hu
   | cleanup => simp only [localStep] at st; split at st <;> cases st; intro hu; simp [urgent] at hu
   | crash => simp only [localStep] at st; split at st <;> cases st; intro hu; simp [urgent] at hu
+  | expire => simp only [localStep] at st; split at st <;> cases st; intro hu; simp [urgent] at hu
+  | srCheck1 => simp only [localStep] at st; split at st <;> cases st; intro hu; simp [urgent] at hu
+  | srCreate =>
+    simp only [localStep] at st; split at st <;> cases st
+    intro _; simp only [lockFile]; refine ⟨by simp, Nat.le_refl _, by omega⟩
+  | srAdopt =>
+    simp only [localStep] at st; split at st <;> cases st
+    rename_i hc
+    intro _
+    have := hg (by simp [urgent, hc.1])
+    simpa [lockFile, hc.1] using this
+  | srFail => simp only [localStep] at st; split at st <;> cases st; intro hu; simp [urgent] at hu
+  | srFailKeep => simp only [localStep] at st; split at st <;> cases st; intro hu; simp [urgent] at hu
   | removeStale k =>
     simp only [localStep] at st
     split at st
@@ -118,12 +147,12 @@ theorem local_good (P : Params) (ht : timingOK P) (now : Nat) (c : Bool) (p p' :
         cases k
         · simp only [getFile, lockFile, Bool.false_eq_true, if_false] at hne
           simp only [clearFile, Bool.false_eq_true, if_false]
-          by_cases hr : p.pc = .refreshing
+          by_cases hr : p.pc = .refreshing ∨ p.pc = .stale2
           · simp only [lockFile, hr, if_true] at hl ⊢; exact ⟨hl, h1, h2⟩
           · simp [hr] at hne
         · simp only [getFile, lockFile, if_true] at hne
           simp only [clearFile, if_true]
-          by_cases hr : p.pc = .refreshing
+          by_cases hr : p.pc = .refreshing ∨ p.pc = .stale2
           · simp [hr] at hne
           · simp only [lockFile, hr, if_false] at hl ⊢; exact ⟨hl, h1, h2⟩
       · cases st
@@ -142,20 +171,34 @@ theorem local_excl (P : Params) (now : Nat) (c : Bool) (p p' : Proc) (a : LAct)
   cases a <;> simp only [localStep] at st <;> (repeat' split at st) <;>
     first | (cases st; done) | (cases st; rfl) | (cases st; exact clearFile_excl _ _)
 
-theorem clearFile_holds (p : Proc) (k : Bool) : holds (clearFile p k) = holds p := by
-  cases k <;> rfl
+theorem clearFile_claims (p : Proc) (k : Bool) (h : claims (clearFile p k) = true) : claims p = true := by
+  cases k
+  · simp only [clearFile, Bool.false_eq_true, if_false, claims, holds, Bool.or_eq_true, Bool.and_eq_true,
+      beq_iff_eq] at h ⊢
+    rcases h with h | h
+    · exact Or.inl h
+    · simp at h
+  · simpa [clearFile, claims, holds] using h
 
-/-- L3: a process starts to believe it holds the lock only by a passing second check -/
-theorem local_holds (P : Params) (now : Nat) (c : Bool) (p p' : Proc) (a : LAct)
-    (st : localStep P now c p a = some p') (h : holds p' = true) :
-    holds p = true ∨ (c = true ∧ p.pc = .created) := by
+/-- L3: a process gets a claim on the lock only by a passing second check -/
+theorem local_claims (P : Params) (now : Nat) (c : Bool) (p p' : Proc) (a : LAct)
+    (st : localStep P now c p a = some p') (h : claims p' = true) :
+    claims p = true ∨ (c = true ∧ p.pc = .created) := by
   cases a <;> simp only [localStep] at st <;> (repeat' split at st) <;>
     first
     | (cases st; done)
-    | (cases st; simp [holds] at h; done)
-    | (cases st; left; simp_all [holds]; done)
+    | (cases st; simp [claims, holds] at h; done)
+    | (cases st; left; simp_all [claims, holds]; done)
     | (cases st; right; rename_i hc; exact ⟨hc.2, hc.1⟩)
-    | (cases st; left; rw [clearFile_holds] at h; exact h)
+    | (cases st; left; exact clearFile_claims _ _ h)
+
+/-- a process with a claim has a lock file in the repository -/
+theorem claims_file (P : Params) (now : Nat) (p : Proc) (hg : Good P now p) (h : claims p = true) :
+    filePresent p = true := by
+  simp only [claims, Bool.or_eq_true, Bool.and_eq_true] at h
+  rcases h with h | h
+  · exact good_file P now p hg (holds_urgent p h)
+  · simp [filePresent, h.2]
 
 theorem lookup_lt {l : List Proc} {i : Nat} {t : Proc} (h : l[i]? = some t) :
     ∃ hi : i < l.length, l[i] = t := by
@@ -194,16 +237,15 @@ theorem step_inv (P : Params) (ht : timingOK P) (s s' : Sys) (a : Act) (h : Inv 
           rcases List.mem_or_eq_of_mem_set hx with hx | rfl
           · exact hG x hx
           · exact hgp'
-        · -- mutual exclusion
-          -- key: the changed process against any other (unchanged) process
-          have key : ∀ (j : Nat) (q : Proc), j ≠ i → s.procs[j]? = some q → holds p' = true →
-              holds q = true → conflict p'.excl q.excl = false := by
+        · -- claims of different processes do not conflict
+          have key : ∀ (j : Nat) (q : Proc), j ≠ i → s.procs[j]? = some q → claims p' = true →
+              claims q = true → conflict p'.excl q.excl = false := by
             intro j q hj hq hp'h hqh
-            rcases local_holds P s.now _ p p' la hl hp'h with hph | ⟨hc, _⟩
+            rcases local_claims P s.now _ p p' la hl hp'h with hph | ⟨hc, _⟩
             · rw [hex]; exact hM i j p q (fun e => hj e.symm) hp hq hph hqh
             · rw [hex]
               have hfq : filePresent q = true :=
-                good_file P s.now q (hG q (List.mem_of_getElem? hq)) (holds_urgent q hqh)
+                claims_file P s.now q (hG q (List.mem_of_getElem? hq)) hqh
               exact (clearB_iff s i p.excl).mp hc j q hq hj hfq
           intro a b x y hab hx hy hxh hyh
           simp only at hx hy
@@ -234,7 +276,7 @@ theorem init_inv (P : Params) (now : Nat) (excls : List Bool) : Inv P (init now 
     have := List.mem_of_getElem? hp
     simp only [init, List.mem_map] at this
     obtain ⟨e, _, rfl⟩ := this
-    simp [holds] at hph
+    simp [claims, holds] at hph
 
 theorem run_inv (P : Params) (ht : timingOK P) : ∀ (acts : List Act) (s s' : Sys),
     Inv P s → run P s acts = some s' → Inv P s'
@@ -253,7 +295,7 @@ theorem run_inv (P : Params) (ht : timingOK P) : ∀ (acts : List Act) (s s' : S
     while a process holds an exclusive lock, no other process holds any lock. -/
 theorem mutex (P : Params) (ht : timingOK P) (now : Nat) (excls : List Bool) (acts : List Act) (s : Sys)
     (h : run P (init now excls) acts = some s) : Mutex s :=
-  (run_inv P ht acts _ s (init_inv P now excls) h).2
+  Mutex_of_Claims s (run_inv P ht acts _ s (init_inv P now excls) h).2
 
 /-- **holder_has_fresh_file** (also the `refresh_no_gap` statement of C13): in every reachable state a
     process that believes it holds the lock — also in the middle of a refresh — has a lock file of
@@ -281,9 +323,46 @@ theorem mutex_from (P : Params) (ht : timingOK P) (s0 : Sys)
     · intro p hp hu
       rcases h0 p hp with h1 | h1 <;> simp [urgent, h1] at hu
     · intro i j p q _ hp _ hph _
-      rcases h0 p (List.mem_of_getElem? hp) with h1 | h1 <;> simp [holds, h1] at hph
+      rcases h0 p (List.mem_of_getElem? hp) with h1 | h1 <;> simp [claims, holds, h1] at hph
   have hinv := run_inv P ht acts s0 s hinv0 h
-  exact ⟨hinv.2, fun p hp hh => good_file P s.now p (hinv.1 p hp) (holds_urgent p hh)⟩
+  exact ⟨Mutex_of_Claims s hinv.2, fun p hp hh => good_file P s.now p (hinv.1 p hp) (holds_urgent p hh)⟩
+
+/-- **mutex_from_expired**: the start state may also contain holders whose lock expired and who are in
+    a forced refresh (`stale0`: backend frozen, lock arbitrarily old — the situation outside the timing
+    assumption that `refreshStaleLock` is there for), as long as these former co-holders do not conflict
+    with each other. Whatever the remover and other processes do meanwhile (remove the expired lock,
+    take an exclusive lock), an expired holder comes back to `holding` only through `srAdopt`, i.e. only
+    if its old lock file is still there, and mutual exclusion holds in every reachable state. -/
+theorem mutex_from_expired (P : Params) (ht : timingOK P) (s0 : Sys)
+    (h0 : ∀ p ∈ s0.procs, p.pc = .idle ∨ p.pc = .dead ∨ p.pc = .stale0)
+    (hc : ∀ (i j : Nat) (p q : Proc), i ≠ j → s0.procs[i]? = some p → s0.procs[j]? = some q →
+      p.pc = .stale0 → q.pc = .stale0 → conflict p.excl q.excl = false)
+    (acts : List Act) (s : Sys) (h : run P s0 acts = some s) :
+    Mutex s ∧ ∀ p ∈ s.procs, holds p = true → filePresent p = true := by
+  have hinv0 : Inv P s0 := by
+    constructor
+    · intro p hp hu
+      rcases h0 p hp with h1 | h1 | h1 <;> simp [urgent, h1] at hu
+    · intro i j p q hij hp hq hph hqh
+      have hp0 : p.pc = .stale0 := by
+        rcases h0 p (List.mem_of_getElem? hp) with h1 | h1 | h1
+        · simp [claims, holds, h1] at hph
+        · simp [claims, holds, h1] at hph
+        · exact h1
+      have hq0 : q.pc = .stale0 := by
+        rcases h0 q (List.mem_of_getElem? hq) with h1 | h1 | h1
+        · simp [claims, holds, h1] at hqh
+        · simp [claims, holds, h1] at hqh
+        · exact h1
+      exact hc i j p q hij hp hq hp0 hq0
+  have hinv := run_inv P ht acts s0 s hinv0 h
+  exact ⟨Mutex_of_Claims s hinv.2, fun p hp hh => good_file P s.now p (hinv.1 p hp) (holds_urgent p hh)⟩
+
+/-- **stale_refresh_detects_removal**: a forced refresh can neither start nor be adopted once the old
+    lock file is gone; its only continuation is `srFail` (cleanup of the replacement, context cancelled). -/
+theorem stale_refresh_detects_removal (P : Params) (now : Nat) (c : Bool) (p : Proc) (h : p.f1 = none) :
+    localStep P now c p .srCheck1 = none ∧ localStep P now c p .srAdopt = none := by
+  simp [localStep, h]
 
 /-- link to the executable statement -/
 theorem mutexB_of_Mutex (s : Sys) (h : Mutex s) : mutexB s = true := by
@@ -380,6 +459,19 @@ open LAct in
 example : ((run { S := 3, R := 5, M := 2, eps := 0 } (init 0 [true, true])
     [.proc 0 check1, .proc 0 create, .proc 0 check2ok, .tick, .tick, .tick, .tick,
      .proc 0 (removeStale false), .proc 1 check1, .proc 1 create, .proc 1 check2ok]).map mutexB) = some false := by
+  decide
+
+open LAct in
+/-- the situation of seeded change C12-b on the model: P's lock expired (31 units old, `S = 30`), P starts
+    the forced refresh and writes the replacement; Q's `unlock` removes P's stale lock. P's adoption is
+    refused (the real code returns errRemovedLock); P can only fail, which removes the replacement, and
+    then Q can take its exclusive lock. -/
+example :
+    let P : Params := { S := 30, R := 22, M := 5, eps := 0 }
+    let s0 : Sys := { now := 100, procs := [{ pc := .stale0, excl := false, t := 69, f1 := some 69 }, { excl := true }] }
+    (run P s0 [.proc 0 srCheck1, .proc 0 srCreate, .proc 0 (removeStale false), .proc 0 srAdopt]) = none
+    ∧ ((run P s0 [.proc 0 srCheck1, .proc 0 srCreate, .proc 0 (removeStale false), .proc 0 srFail, .proc 1 check1,
+               .proc 1 create, .proc 1 check2ok]).map (fun s => (mutexB s, s.procs.map (·.pc)))) = some (true, [.stopping, .holding]) := by
   decide
 
 end Restic.Props.C12
